@@ -152,7 +152,9 @@ TABLE = {
              "push_heap/pop_heap reproduced move by move and get_expired_lk/remove as operators with bound-checked indexing. Manual mode covers all "
              "unbounded histories of sleep_until/get_expired/remove/cancel(id)/cancel(id,e)/~scheduler and interval()+stop token over small sets of "
              "time points (ties, past values) and identifiers (reuse, nullptr). Single-thread start(awaitable) mode runs under a virtual clock: "
-             "worker coroutine, coro_queue FIFO, wait_until, with lazily chosen coroutine programs. Properties: NeverEarly, DeadlineOrder, "
+             "worker coroutine, coro_queue FIFO, wait_until, with lazily chosen coroutine programs. Thread mode (spec/Scheduler/SchedulerThread.tla): the "
+             "scheduler's own worker thread (adopted through interposed pthread_create, virtual mutex/condvar/clock) against a client thread incl. "
+             "destruction racing with the worker loop: StopNotMissed, NoHang, PromptWhenIdle, NeverEarly, DestroyCancelsPending, every edge replayed. Properties: NeverEarly, DeadlineOrder, "
              "ExactlyOncePerSleep, PromptManual/PromptWhenIdle (woken exactly at the time point in virtual time), CancelHitsOne, "
              "CancelFalseNoEffect, NotifyWhenEarliest, DestroyCancelsPending, HeapWellFormed, NoCrash (asserted index bounds), NoHang, "
              "ReturnsWhenFinished, StartTerminates. Every edge of every state graph, including calls without effect, is replayed on the real "
@@ -160,7 +162,7 @@ TABLE = {
              "exactly-once resumption of awaiting coroutines, virtual wake-up times and the ready-queue order, with bound-checked std::vector; "
              "self-deadlock and untimed waits are detected through interposed pthread functions.",
         note="bounds: <=3 time points, <=3 identifiers, <=3-5 concurrently pending sleeps, array <=3-6 (histories unbounded); start mode 2-3 coroutines x "
-             "<=4-6 commands; THREAD / THREAD-POOL MODE IS NOT COVERED (DESIGN 9.5d open); TCB: TLC, tools/fastcover.py path cover, the replayer's "
+             "<=4-6 commands; thread mode (start_thread) covered by SchedulerThread.tla: worker thread vs one client, <=3 sleeps, scripts of <=6 steps, lock grain + the worker's clock read, virtual time; thread-POOL mode (worker_coro<true>) not covered; TCB: TLC, tools/fastcover.py path cover, the replayer's "
              "projection/audit and its clock/pthread interposition, libstdc++-12 heap algorithms as modelled (a mismatch would diverge)",
         design_ref="6/C12, 3.8, 9.5"),
     "C15": dict(
@@ -180,6 +182,25 @@ TABLE = {
              "delivery properties claimed only for the documented discipline (suspend point released and listeners run before the next call / last "
              "drop); shared_ptr refcount and plain accesses are not scheduling points; weak CAS as strong; TCB: TLC, vsched, projection code, c15.py's edge cover",
         design_ref="6/C15, 3.11"),
+    "C17": dict(
+        claimed=True,
+        text="SharedFuture.tla models cocls::shared_future at the finest replayable grain: the heap state, the shared_ptr use count decomposed "
+             "into its owners (handles, coroutine frames, the resolve tracer's self-reference, the charge() parameter) and the awaiter chain of "
+             "the underlying future, for every way of making a shared_future (both template constructors, a function returning a pending or "
+             "ready future, a suspending or synchronously finishing async coroutine, set_value/set_exception, get_promise() on a "
+             "default-constructed object, operator<<). TLC checks exhaustively, for all interleavings of one resolver (value / exception / "
+             "drop / promise destruction / coroutine completion) with 1-3 threads that copy, co_await, wait(), subscribe callbacks, poll and "
+             "drop handles, that the state is alive exactly while referenced and in particular while pending, that the tracer holds its "
+             "reference exactly while pending and is the last node of the chain, that the stored value is destroyed exactly once with the "
+             "state, that every step touching the state finds it alive, that all observers see the same single result exactly once, and that "
+             "nothing is left at the end. Every dumped state graph is replayed on the real shared_future<Counted> under the controlled "
+             "scheduler, comparing after each step the use count, freed/alive status, instance and destruction counters, allocation balance, "
+             "chain, stored result, per-awaiter observations and each thread's pending operation; thorough and part of quick run under ASan "
+             "without any probe that keeps the block alive.",
+        note="bounds: <=3 handle threads, <=2 copies, <=2 handles/thread, each call kind once per thread, one resolver; SC interleavings only; TCB: vsched "
+             "token passing, libstdc++ shared_ptr atomicity and layout (control-block pointer read raw in ASan builds), strong-for-weak CAS, "
+             "capped edge cover on the largest graphs",
+        design_ref="6/C17, 3.12, 9.7"),
     "C18": dict(
         claimed=True,
         text="Adapters.tla models callback_await / callback_await_alloc, make_promise (heap and storage), discard, call_fn_future_awaiter and all "
@@ -196,6 +217,22 @@ TABLE = {
              "paths per combination; TCB: TLC, vsched token passing with scheduling points on the awaited future's slot/owner word and fence only, "
              "SC interleavings (weak CAS as strong), adapters called from a plain thread (no active coroutine queue), non-throwing user callbacks",
         design_ref="6/C18, 3.12"),
+    "C19": dict(
+        claimed=True,
+        text="Storage.tla models all seven instantiable storage policies at the grain of the code (block pointer and capacity, busy flag, owner "
+             "pointer or flag byte or attached object behind the frame, a bounded slot heap) and is checked exhaustively by TLC for all "
+             "create/complete sequences of three frame-size classes and for two threads on one reusable_storage_mtsafe, both at "
+             "_busy-operation grain and at operator new/delete grain: Exclusive, BlockAlive, LargeEnough, HeapFallbackFreedOnce, WarmNoAlloc, "
+             "MtSafeNeverShares, ExtraCtorDtorOnce, ExtraUsableAtCreation. Every edge of every state graph is replayed on the real policies "
+             "through with_allocator<traced<Policy>, async<void>> coroutines running on an arena allocator that mirrors the model's heap; "
+             "after each step the replayer compares slots, sizes, bookkeeping and new/delete counts with the model, and independently checks "
+             "raw-address overlap, canaries, block sizes, double free and leaks (ASan/UBSan in thorough). The check derived a defect of the "
+             "pinned tree as a TLC counterexample and confirmed it on the real code (reusable_storage::alloc released its block before "
+             "replacing _ptr; fixed in /repo), the pre-fix model is kept as a rejected self-test.",
+        note="bounds: <=6 frames, <=3 live, 3 observed size classes, 2 threads, <=5 frames at operator new/delete grain, heap of 6 slots with "
+             "lowest-free reuse; TCB: TLC, vsched token scheduler, harness arena allocator, g++ frame layout, libstdc++ vector growth; memory "
+             "orders are C03; static_storage does not satisfy the Storage concept, cannot be instantiated and is not covered",
+        design_ref="6/C19, 3.12, 9.8"),
     "C20": dict(
         claimed=True,
         text="The Future and Mutex specifications carry an allocation allowance (Future: none; Mutex: only the coroutine frames the "
